@@ -2,7 +2,7 @@
 
 #[inline]
 pub fn spin_loop() {
-  crate::rt::yield_point();
+  crate::rt::yield_point_kind("spin");
 }
 
 /// Same contract as `std::hint::unreachable_unchecked`.
